@@ -5,6 +5,7 @@ package main
 // BeginBlock and after EndBlock, and TLC judges every emitted runtime block with the declarative rule (TraceRoothash.tla).
 
 import (
+	"bytes"
 	"context"
 	"fmt"
 	"os"
@@ -361,6 +362,9 @@ func (d *cnDriver) genProofs(h int64, nonceBump map[string]uint64) []cnTxMeta {
 	if !d.vrf.ok {
 		return nil
 	}
+	if !bytes.Equal(n.vrfAlpha, d.vrf.alpha) {
+		n.vrfPrevAlpha = n.vrfAlpha
+	}
 	n.vrfAlpha = d.vrf.alpha
 	var metas []cnTxMeta
 	add := func(signer, node, validity string, epoch int64) {
@@ -412,6 +416,10 @@ func (d *cnDriver) genProofs(h int64, nonceBump map[string]uint64) []cnTxMeta {
 			add(v.name, v.name, "badpi", d.vrf.epoch)
 		case x == 3:
 			add(v.name, v.name, "wrongepoch", d.vrf.epoch+1)
+		case x == 4 && len(n.vrfPrevAlpha) > 0:
+			// the proof of the previous epoch once more, declared for the current one: every replica verified these very bytes
+			// an epoch ago (a replica restarted since then did not)
+			add(v.name, v.name, "stalepi", d.vrf.epoch)
 		case early:
 			add(v.name, v.name, "premature", d.vrf.epoch)
 		default:
